@@ -30,4 +30,4 @@ def run(tier):
         'key = prefix of one fixed LFSR byte pattern, message = prefix of the C04 counter pattern',
         'the sandbox CPU implements every instruction set a forced transform needs (sse4.1, avx2, sha_ni)',
     ]
-    matrix.run_matrix(rep, PROP, tier, 'harness/C07/h_c07.c', 'h_c07')
+    matrix.run_matrix(rep, PROP, tier, 'harness/C07/h_c07.c', 'h_c07', residue_set=1)
